@@ -232,8 +232,9 @@ Definition empty_load_ok (stores : list hev) (l : hev) : bool :=
   existsb (fun w => hempty w && load_ok stores (l, Some w)) stores.
 Definition hist_ok (h : list hev) : bool :=
   (* every Store completed (a Store reported as failed has id -2) *)
-  forallb (fun e => is_load e || (0 <? vid e)) h &&
-  let stores := filter (fun e => negb (is_load e)) h in
+  forallb (fun e => is_load e || (0 <? vid e) || (vid e =? -4)) h &&
+  (* a Store that failed because of an injected write fault (id -4) has no effect: it explains no Load *)
+  let stores := filter (fun e => negb (is_load e) && (0 <? vid e)) h in
   let loads := map (fun l => (l, find_store stores (vid l))) (filter (fun l => is_load l && negb (hempty l)) h) in
   forallb (load_ok stores) loads &&
   forallb (empty_load_ok stores) (filter (fun l => is_load l && hempty l) h) &&
@@ -260,6 +261,38 @@ Definition check_crash (acked started loaded : Z) : Z :=
   code (existsb (Z.eqb impl) crash_outcomes)
        (((loaded =? acked) || (loaded =? started)) && ((started =? acked) || (started =? acked + 1))).
 
+(** ** kind 4: a write fault in the middle of Store (RLIMIT_FSIZE in a child process: the temp
+    file cannot grow beyond the limit, write(2) fails with EFBIG part-way).
+    Model: the LTS run in which the writer's calls are followed by [LFail] - over an existing
+    value and onto a fresh key.  It predicts: both Stores return an error, the existing key
+    still holds the old value whole, the fresh key does not exist, no temp file is left.
+    Spec: the same, demanded of the implementation's observation. *)
+Definition fault_model : option (bool * bool * bool * bool) :=   (* old kept, fresh absent, no temps, both err *)
+  let old := [1%N; 1%N; 1%N] in
+  let new := [2%N; 2%N; 2%N; 2%N; 2%N; 2%N] in
+  let ls := solo_store 7%nat old [3%nat] ++
+            [LSpawnStore 1 7 new; LCreate 1 1; LWrite 1 2; LFail 1;
+             LSpawnStore 2 8 new; LCreate 2 2; LWrite 2 2; LFail 2]%nat in
+  match run init_empty ls with
+  | Some s =>
+      Some (match named_value s 7%nat with Some v => str_eqb v old | None => false end,
+            match named_value s 8%nat with None => true | Some _ => false end,
+            match dir s (NTemp 1%nat), dir s (NTemp 2%nat) with None, None => true | _, _ => false end,
+            match thr s 1%nat, thr s 2%nat with WErr _ _, WErr _ _ => true | _, _ => false end)
+  | None => None
+  end.
+Definition check_fault (r_old r_fresh loaded expected fresh_exists stat_fresh dirents : Z) : Z :=
+  let impl := (loaded =? expected, negb (fresh_exists =? 1) && (stat_fresh =? 1), dirents =? 1,
+               negb (r_old =? 0) && negb (r_fresh =? 0)) in
+  let ok := (loaded =? expected) && negb (fresh_exists =? 1) && (stat_fresh =? 1) && (dirents =? 1) &&
+            negb (r_old =? 0) && negb (r_fresh =? 0) in
+  match fault_model with
+  | Some (a, b, c, d) =>
+      let '(a', b', c', d') := impl in
+      code (Bool.eqb a a' && Bool.eqb b b' && Bool.eqb c c' && Bool.eqb d d') ok
+  | None => code false ok
+  end.
+
 (** ** dispatch *)
 Definition check_line (l : list Z) : Z :=
   match l with
@@ -282,6 +315,12 @@ Definition check_line (l : list Z) : Z :=
       match decode (a <- get_z ;; s <- get_z ;; x <- get_z ;; ret (a, s, x)) r with
       | Some (a, s, x) => check_crash a s x
       | None => code_decode_error
+      end
+  | 4 :: r =>
+      match decode (get_list get_z) r with
+      | Some [r_old; r_fresh; loaded; expected; fresh_exists; stat_fresh; dirents] =>
+          check_fault r_old r_fresh loaded expected fresh_exists stat_fresh dirents
+      | _ => code_decode_error
       end
   | _ => code_decode_error
   end.
